@@ -83,6 +83,8 @@ fn main() {
         let height = if r.chance(1, 40) { 0 } else { 1 + r.below(12) as usize };
         // the window may have had another height when the cursor was moved (it is redrawn after a resize)
         let height0 = if r.chance(1, 3) { 1 + r.below(14) as usize } else { height };
+        // ... and another width (a resize, the preview window toggled): derived from the case, not drawn from the stream
+        let width0 = match id % 3 { 0 => 3 + ((width * 7 + height0 * 3 + id as usize) % 10), 1 => 13 + ((width * 5 + height0 + id as usize) % 28), _ => width };
         let reverse = r.chance(3, 10);
         let tabstop = *r.pick(&[1usize, 2, 3, 4, 8]);
         let no_hscroll = r.chance(3, 20);
@@ -130,7 +132,7 @@ fn main() {
             10 => Ev::EvActScrollRight(1 + r.below(6) as i32),
             _ => Ev::EvActScrollLeft(1 + r.below(6) as i32),
         }).collect();
-        let input = format!("w={} h={} (h while moving: {}) reverse={} tabstop={} no_hscroll={} keep_right={} reader_items={} items={:?} ranges={:?} ops={:?}", width, height, height0, reverse, tabstop, no_hscroll, keep_right, use_reader, texts, mrs, ops);
+        let input = format!("w={} h={} (h while moving: {}, first drawn at width {}) reverse={} tabstop={} no_hscroll={} keep_right={} reader_items={} items={:?} ranges={:?} ops={:?}", width, height, height0, width0, reverse, tabstop, no_hscroll, keep_right, use_reader, texts, mrs, ops);
 
         let rev_list = r.chance(1, 2);   // both reverse layouts put the first result on the top row of the list area
         let rerun = r.chance(1, 5);
@@ -184,7 +186,7 @@ fn main() {
             sel.append_sorted_items(mitems);
             // a first draw tells the selection its height
             {
-                let mut cv0 = Rec::new(width, height0);
+                let mut cv0 = Rec::new(width0, height0);
                 let sel_ref = AssertUnwindSafe(&sel);
                 let cv_ref = AssertUnwindSafe(&mut cv0);
                 let _ = guarded(move || { let _ = sel_ref.0.draw(cv_ref.0); });
@@ -311,6 +313,6 @@ fn main() {
     let total = w.total;
     let shards = w.finish();
     write_meta(&a.out, total, distinct.len() as u64,
-        "0-10 items (plain SkimItem or reader-built DefaultSkimItem) with texts of 0..3w+4 characters over ASCII, wide (CJK), accented, tab and backspace; match ranges none / 1-4 character positions / byte range (2.5% out of range); canvas 1-40 x 0-12, default or reverse layout, tabstop 1-8, no-hscroll, keep-right; 0-5 cursor moves, toggles, page-up, toggle-all, horizontal scrolls before the recorded draw; distinct by full description",
+        "0-10 items (plain SkimItem or reader-built DefaultSkimItem) with texts of 0..3w+4 characters over ASCII, wide (CJK), accented, tab and backspace; match ranges none / 1-4 character positions / byte range (2.5% out of range); canvas 1-40 x 0-12 (two thirds of the cases were first drawn at another width), default or reverse layout, tabstop 1-8, no-hscroll, keep-right; 0-5 cursor moves, toggles, page-up, toggle-all, horizontal scrolls before the recorded draw; distinct by full description",
         samples, dist.json(), &fails, shards);
 }
